@@ -15,3 +15,10 @@ open Nitime.C11.Props
 #print axioms fitModel_fixed_order
 #print axioms lwr_sigma_order0
 #print axioms lwr_sigma_psd_order1
+#print axioms toeplitzPD_of_full
+#print axioms lwr_abstract_posDef
+#print axioms invOK_of_toeplitzPD
+#print axioms lwr_sigma_posDef
+#print axioms lwr_solves_of_toeplitzPD
+#print axioms lwr_permutation_equivariant
+#print axioms gjInv_contract
